@@ -322,10 +322,10 @@ def unit_cases(ctx):
     cases.append((B_REAL, 4 * B_REAL, 0, False))
     raised = any(not k.startswith("torrent.py") for k in ctx.extra.get("ast_changed_since_model", []))
     if ctx.tier == "thorough" or raised:
-        for _ in range(160 if ctx.tier == "thorough" else 30):
+        for _ in range(400 if ctx.tier == "thorough" else 30):
             pl = ctx.rng.choice([1, 2, 4, 8, 16, 32]) * B_REAL
             cases.append((B_REAL, pl, ctx.rng.randrange(1, min(LIMIT, 10 * pl)), False))
-        for pl in (4, 8, 16, 32):
+        for pl in (4, 8, 16, 32, 64):
             for s in range(0, 161):
                 cases.append((4, pl, s, True))
         # a second patched scope: B = 1 is the degenerate block size, B = 3 is not a power of two
@@ -954,7 +954,7 @@ def _categorise(prop, problems):
 def e2e(ctx, prop):
     """the creators of this property on generated content trees, judged against the reference oracle / each other"""
     import shutil
-    n = 24 if ctx.tier == "quick" else 400
+    n = 24 if ctx.tier == "quick" else 1200
     if ctx.tier == "quick" and any(k.startswith("torrent.py") for k in ctx.extra.get("ast_changed_since_model", [])):
         n *= 3
     salt = ctx.rng.getrandbits(48)
